@@ -19,6 +19,8 @@ for d in sorted(glob.glob("/verif/seeded/*/")):
     last = verdict(latest) if latest else ''
     if m.get("caught_by") and not last.startswith("caught"):
         last = "caught by " + m["caught_by"].split(":")[0].split(" (")[0] + " (not by this property's own check)"
+    if m.get("not_detected") and not last.startswith("caught"):
+        last = "**not detected** (" + m["not_detected"].split(": the change only shows on a path that the harness does not drive - ")[-1][:110] + ")"
     if m.get("neutralised"):
         last = "no longer a defect: " + m["neutralised"].split(":")[0]
     rows.append(f"| {name} | {what[:170]} | {needs[:150]} | {verdict(first)} | {last} |")
